@@ -145,11 +145,22 @@ def mk_backtest(run, B, cfg, eager):
         return PR[c][i]
     data = frame(run, dts, ['a', 'b', 'c'], px)
     kids = (lambda names: [C.Security(n) for n in names]) if eager else (lambda names: list(names))
+
+    class Monitor(A.Algo):
+        """reads the tree's structure on every run, from the first date on (before any lazily named security exists)"""
+        def __call__(self, target):
+            target.perm.setdefault('seen', []).append((len(target.members), len(target.securities), list(target.positions.columns)))
+            return True
+    mon = [Monitor()] if cfg.get('monitor') else []
     if cfg['shape'] == 'flat':
-        s = B.Strategy('s', [A.RunDaily(), A.SelectAll(), A.WeighSpecified(a=0.5, b=0.25), A.Rebalance()], kids(['a', 'b']))
+        s = B.Strategy('s', mon + [A.RunDaily(), A.SelectAll(), A.WeighSpecified(a=0.5, b=0.25), A.Rebalance()], kids(['a', 'b']))
+    elif cfg['shape'] == 'nested_only':
+        # the root itself never gains a child after construction: only its sub-strategy creates securities on first use
+        k = B.Strategy('kid', [A.RunDaily(), A.SelectAll(), A.WeighEqually(), A.Rebalance()], kids(['a', 'b']))
+        s = B.Strategy('s', mon + [A.RunDaily(), A.WeighSpecified(kid=0.75), A.Rebalance()], [k])
     else:
         k = B.Strategy('kid', [A.RunDaily(), A.SelectAll(), A.WeighEqually(), A.Rebalance()], kids(['a', 'b']))
-        s = B.Strategy('s', [A.RunDaily(), A.WeighSpecified(kid=0.625, c=0.25), A.Rebalance()], [k] + kids(['c']))
+        s = B.Strategy('s', mon + [A.RunDaily(), A.WeighSpecified(kid=0.625, c=0.25), A.Rebalance()], [k] + kids(['c']))
     return data, dts, s
 
 
@@ -182,6 +193,14 @@ def h_lazy_eager(run, cfg):
             if isinstance(b, float) and b != b:
                 b = 0.0
             run.check_near(a, b, 1e-9, 'lazy=eager-positions', '%s @%s' % (n, d))
+    # the finished trees have the same shape, whenever their structure was first looked at
+    n1 = sorted(m.full_name for m in t1.strategy.members)
+    n2 = sorted(m.full_name for m in t2.strategy.members)
+    run.check(n1 == n2, 'lazy=eager-members', '%s vs %s' % (n1, n2))
+    run.check(sorted(x.full_name for x in t1.strategy.securities) == sorted(x.full_name for x in t2.strategy.securities), 'lazy=eager-securities')
+    for t in res:
+        check_structure(run, t.strategy, ' after run')
+        run.check(sorted(m.full_name for m in t.strategy.members) == sorted(m.full_name for m in walk(t.strategy)), 'members=tree-walk', t.strategy.name)
     # settings pushed from the top reached lazily created securities too
     C = B.core
     for t in res:
@@ -192,6 +211,9 @@ def h_lazy_eager(run, cfg):
         st = t.strategy
         if cfg['shape'] == 'flat':
             run.check(sorted(st.universe.columns) == ['a', 'b'], 'universe-is-declared-tickers', str(list(st.universe.columns)))
+        elif cfg['shape'] == 'nested_only':
+            run.check(sorted(st.universe.columns) == ['kid'], 'universe-is-declared-tickers-plus-substrategies', str(list(st.universe.columns)))
+            run.check(sorted(st['kid'].universe.columns) == ['a', 'b'], 'substrategy-universe-is-its-own-tickers', str(list(st['kid'].universe.columns)))
         else:
             run.check(sorted(st.universe.columns) == ['c', 'kid'], 'universe-is-declared-tickers-plus-substrategies', str(list(st.universe.columns)))
             kid = st['kid']
@@ -207,8 +229,25 @@ def h_all_universe(run, cfg):
     dts = dates(3)
     data = frame(run, dts, ['a', 'b', 'c'], lambda i, c: run.real('p%d%s' % (i, c), 1, 300) if i == 2 else PR[c][i])
     s = B.Strategy('s', [A.RunDaily(), A.SelectAll(), A.WeighEqually(), A.Rebalance()])
+    if cfg.get('late'):
+        # ... plus a column for a sub-strategy attached afterwards through the parent argument
+        B.Strategy('kid', [A.RunDaily(), A.SelectAll(), A.WeighEqually(), A.Rebalance()], ['a'], parent=s)
     t = B.Backtest(s, data, integer_positions=False)
     t.run()
+    if cfg.get('late'):
+        st = t.strategy
+        kid = st['kid']
+        run.check(sorted(st.universe.columns) == ['a', 'b', 'c', 'kid'], 'undeclared-universe-is-all-tickers-plus-substrategies', str(list(st.universe.columns)))
+        run.check(sorted(kid.universe.columns) == ['a'], 'substrategy-universe-is-its-own-tickers', str(list(kid.universe.columns)))
+        check_structure(run, st, ' late child')
+        for d in dts:
+            run.check_near(st.universe['kid'][d], kid.prices[d], 1e-7, 'substrategy-column-is-child-price', str(d))
+        # the parent trades the sub-strategy like any other name it sees
+        run.check('kid' in st.children and bool(abs(st['kid'].value) > 0), 'late-child-is-allocated', 'value %r' % (st['kid'].value,))
+        for d in dts:
+            for c in 'abc':
+                run.check_near(st.universe[c][d], data[c][d], 1e-12, 'universe-carries-input-prices', '%s@%s' % (c, d))
+        return
     run.check(sorted(t.strategy.universe.columns) == ['a', 'b', 'c'], 'undeclared-universe-is-all-tickers')
     for d in dts:
         for c in 'abc':
@@ -223,9 +262,12 @@ def plan(tier):
     quick = tier == 'quick'
     opts = dict(max_paths=100000, timeout_ms=10000)
     tasks = [dict(harness='struct', cfg={}, opts=opts), dict(harness='push', cfg=dict(pushes=2 if quick else 3), opts=opts),
-             dict(harness='all_universe', cfg={}, opts=opts)]
+             dict(harness='all_universe', cfg={}, opts=opts), dict(harness='all_universe', cfg=dict(late=1), opts=opts)]
+    tasks.append(dict(harness='lazy_eager', cfg=dict(shape='nested_only', int=0, fee=0, monitor=1), opts=opts))
+    tasks.append(dict(harness='lazy_eager', cfg=dict(shape='nested_only', int=0, fee=0), opts=opts))
     for shape in ('flat', 'nested'):
         tasks.append(dict(harness='lazy_eager', cfg=dict(shape=shape, int=0, fee=0), opts=opts))
+        tasks.append(dict(harness='lazy_eager', cfg=dict(shape=shape, int=0, fee=0, monitor=1), opts=opts))
         tasks.append(dict(harness='lazy_eager', cfg=dict(shape=shape, int=1, fee=0, cap=123456.0, symlast=0), opts=opts))
         if not quick:
             tasks.append(dict(harness='lazy_eager', cfg=dict(shape=shape, int=0, fee=1), opts=opts))
